@@ -14,6 +14,7 @@ import PsV.Driver.C08
 import PsV.Driver.C20
 import PsV.Driver.C11
 import PsV.Driver.C10
+import PsV.Driver.C06
 open PsV.Driver
 
 def stateless (f : List String → String) : IO Unit := do
@@ -34,7 +35,8 @@ def drivers : List (String × IO Unit) :=
    ("C08", C08.run),
    ("C20", C20.run),
    ("C11", C11.run),
-   ("C10", C10.run)]
+   ("C10", C10.run),
+   ("C06", C06.run)]
 
 def main (args : List String) : IO UInt32 := do
   match args with
